@@ -129,6 +129,12 @@ fn case(rng: &mut Rng, rep: &mut Report) {
     let grades_dec: Vec<f64> = (0..ne).map(|_| if steep && rng.chance(0.5) { rng.frange(-0.2, -0.05) } else { rng.frange(-0.2, 0.2) }).collect();
     let grades: Vec<f64> = grades_dec.iter().map(|g| g / U::grade_si(gu)).collect();
     let capacity = rng.log_uniform(0.3, 60.0);
+    // the capacity may be declared in any energy unit; the value handed to the builder is the kWh figure in that unit by
+    // the repo's own fuel-equivalence table (the same factor converts every energy delta, so the charge arithmetic in
+    // kWh is unchanged)
+    let cap_unit = *rng.pick(&[routee_compass_core::model::unit::EnergyUnit::KilowattHours, routee_compass_core::model::unit::EnergyUnit::KilowattHours, routee_compass_core::model::unit::EnergyUnit::GallonsGasoline, routee_compass_core::model::unit::EnergyUnit::GallonsDiesel]);
+    let el_factor = routee_compass_core::model::unit::as_f64::AsF64::as_f64(&routee_compass_core::model::unit::EnergyUnit::KilowattHours.convert(&routee_compass_core::model::unit::Energy::new(1.0), &cap_unit));
+    let cap_declared = routee_compass_core::model::unit::as_f64::AsF64::as_f64(&routee_compass_core::model::unit::EnergyUnit::KilowattHours.convert(&routee_compass_core::model::unit::Energy::new(capacity), &cap_unit));
     let start_soc = if rng.chance(0.2) { *rng.pick(&[0.0, 100.0]) } else { (rng.frange(0.0, 100.0) * 4.0).round() / 4.0 };
     let m1 = gen_model(rng, match vtype { 0 => 0, 1 => 1, _ => 2 }); // ice: camry, bev: bolt, phev depleting: volt cd
     let m2 = gen_model(rng, 3); // phev sustaining
@@ -152,11 +158,11 @@ fn case(rng: &mut Rng, rep: &mut Report) {
         1 => {
             let mut v = m1.json(vname);
             v["type"] = json!("bev");
-            v["battery_capacity"] = json!(capacity);
-            v["battery_capacity_unit"] = json!("kilowatt_hours");
+            v["battery_capacity"] = json!(cap_declared);
+            v["battery_capacity_unit"] = json!(cap_unit.to_string());
             v
         }
-        _ => json!({"type": "phev", "name": vname, "battery_capacity": capacity, "battery_capacity_unit": "kilowatt_hours", "charge_depleting": m1.json("cd"), "charge_sustaining": m2.json("cs")}),
+        _ => json!({"type": "phev", "name": vname, "battery_capacity": cap_declared, "battery_capacity_unit": cap_unit.to_string(), "charge_depleting": m1.json("cd"), "charge_sustaining": m2.json("cs")}),
     };
     let mut params = json!({
         "type": "energy_model",
@@ -306,7 +312,8 @@ fn case(rng: &mut Rng, rep: &mut Report) {
             }
         };
         let dist_in_rate_unit = lens_m[e] / U::dist_si(rate_dist_unit(mcfg.eru));
-        let k = adj(mcfg) * dist_in_rate_unit;
+        // the electric energy feature is kept in the battery's declared unit
+        let k = adj(mcfg) * dist_in_rate_unit * if mode_electric { el_factor } else { 1.0 };
         let (elo, ehi) = {
             let (a, b) = (band.0 * k, band.1 * k);
             let (a, b) = if a <= b { (a, b) } else { (b, a) };
@@ -341,16 +348,16 @@ fn case(rng: &mut Rng, rep: &mut Report) {
         }
         // E3 charge arithmetic from the observed electric energy
         if let (Some(i), Some(s0)) = (i_soc, soc_before) {
-            let want = (s0 - 100.0 * d_el / capacity).clamp(0.0, 100.0);
+            let want = (s0 - 100.0 * d_el / cap_declared).clamp(0.0, 100.0);
             if !rel_close(after[i], want, 1e-9, 1e-9) {
-                rep.violate(&format!("C08|{vname}|charge-arithmetic"), format!("E3 edge {e}: charge {s0} % -> {} %, electric energy {d_el} of capacity {capacity} gives {want} %", after[i]), replay);
+                rep.violate(&format!("C08|{vname}|charge-arithmetic"), format!("E3 edge {e}: charge {s0} % -> {} %, electric energy {d_el} of capacity {cap_declared} {cap_unit} gives {want} %", after[i]), replay);
                 return;
             }
             if !(0.0..=100.0).contains(&after[i]) {
                 rep.violate(&format!("C08|{vname}|charge-out-of-range"), format!("E3 charge {} %", after[i]), replay);
                 return;
             }
-            if (want == 0.0 || want == 100.0) && (s0 - 100.0 * d_el / capacity != want) {
+            if (want == 0.0 || want == 100.0) && (s0 - 100.0 * d_el / cap_declared != want) {
                 clamps += 1;
             }
         }
@@ -384,7 +391,7 @@ fn case(rng: &mut Rng, rep: &mut Report) {
         if let Ok(Ok(())) = catch(|| model.estimate_traversal((&a, &b), &mut s, &sm)) {
             let d_m = hav_m((a.x(), a.y()), (b.x(), b.y()));
             let ideal = rec1.ideal_energy_rate.as_f64();
-            let want = ideal * d_m / U::dist_si(rate_dist_unit(m1.eru));
+            let want = ideal * d_m / U::dist_si(rate_dist_unit(m1.eru)) * if vtype == 0 { 1.0 } else { el_factor };
             let idx = if vtype == 0 { i_liq } else { i_el };
             if let Some(i) = idx {
                 let got = s[i].0 - before[i];
@@ -416,7 +423,7 @@ pub fn run(tier: Tier, seed: u64) -> MonOut {
         rule: "energy traversal models built through the real energy-model builder (JSON parameters -> EnergyModelBuilder -> EnergyModelService -> EnergyTraversalModel) over the bundled models (ICE Camry, BEV Bolt, PHEV Volt depleting + sustaining), raw smartcore or interpolated, with/without ideal rate, real-world adjustment and prediction cache, every speed x distance x time x grade unit configuration; sequences of 1..60 edges (5 m..50 km, speeds on a 0.5 grid, grades -20..+20 %, 40 % biased to steep downhill), battery capacity 0.3..60 kWh, starting charge 0..100 %; invalid starting charges (negative, > 100, huge, string, null, array). per edge: time-model bookkeeping, single energy source, energy within the model's rate band x adjustment x length, charge arithmetic and range, then the best-case estimate. non-trivial = a sequence with a clamp event, a sign change of the edge energy, or a PHEV mode switch; distinct by sequence and configuration".into(),
         assumptions: vec![
             "the monitor's own copy of the same prediction model (same file, same parameters) is ground truth for the rate; the accepted band is the model's range over speed x (1 +- 0.1 %) widened by 0.1 % because the traversal model reconstructs speed from length / time through the unit table".into(),
-            "battery capacity is given in kWh, the unit of the electric models".into(),
+            "battery capacity is drawn in kWh and declared in kWh, gasoline gallons or diesel gallons by the repo's own fuel-equivalence table".into(),
             "charge arithmetic is checked exactly (1e-9) from the observed electric energy".into(),
         ],
         floor: 60,
